@@ -781,6 +781,7 @@ func (c *extractCtx) nestedCall(call *ast.CallExpr) ([]LItem, bool, error) {
 }
 
 func (c *extractCtx) encodeStmts(stmts []ast.Stmt) ([]LItem, error) {
+	stmts = flattenBlocks(stmts) // loops over fixed tables arrive written out, one block per row
 	var out []LItem
 	// State for the bit-mask idiom.
 	var maskVar types.Object
@@ -1028,6 +1029,7 @@ func (c *extractCtx) bitmaskHelper(call *ast.CallExpr) (map[string]uint64, token
 }
 
 func (c *extractCtx) decodeStmts(stmts []ast.Stmt) ([]LItem, error) {
+	stmts = flattenBlocks(stmts)
 	var out []LItem
 	var maskVar types.Object
 	var maskItem *LItem
